@@ -337,6 +337,8 @@ class PE:
                 continue
             if isinstance(s, (ast.FunctionDef, ast.Pass)):
                 continue
+            if isinstance(s, ast.Raise):
+                raise _Ret(("raise", norm(s.exc.func) if isinstance(s.exc, ast.Call) else (norm(s.exc) if s.exc is not None else "")))
             raise _Giveup
 
 
@@ -529,6 +531,9 @@ def _downstream(ctx, f: Func, site: ast.AST, var: str, d: Tuple, x: Tuple) -> st
                 rb = r.v
             except _Giveup:
                 return "unknown"
+            raises_a, raises_b = ra is not None and ra[0] == "raise", rb is not None and rb[0] == "raise"
+            if raises_a != raises_b:
+                return "differ"  # one of the two values is refused with an error, the other is not
             if ra is not None and rb is not None:
                 return "same" if _same(ra, rb) else "unknown"
             if ra is not None or rb is not None:
